@@ -34,6 +34,8 @@ func ruleC07(r *Report) {
 	checkEscape(r, p, "C07.escape", func(fn *ssa.Function) bool {
 		return fn.Signature.Recv() != nil && (isMethodOf(fn, "IdpAuthnRequest") || isMethodOf(fn, "IdentityProvider")) || isElementSerialiser(p, fn)
 	})
+	r.Rule("C07.sig-methods", "the SP's signature validator leaves the choice of acceptable signature and digest algorithms to goxmldsig (it does not read SignatureMethod/DigestMethod/Algorithm itself): every method the IdP can be configured with verifies", 1)
+	safely(r, func() { checkNoAlgorithmFilter(r, p, "C07.sig-methods") })
 	// the request leg of the round trip: the IdP does not turn away what this library's SP sends (C05.accept, borrowed)
 	r.Rule("C07.request-leg", "the IdP's validator accepts a fresh, well-addressed request from a registered SP, signed or not, over either binding (the accept scenarios of C05, borrowed): without that no response is produced for the configuration", 1)
 	borrowAccept(r, "C07.request-leg")
@@ -1345,5 +1347,37 @@ func checkPrefixClosure(r *Report, p *Prog, bs []*builder, byType map[*types.Nam
 		}
 		sort.Strings(missing)
 		r.Check(len(missing) == 0, rule, fmt.Sprintf("%s: a tree built on its own declares every prefix it uses", b.T.Obj().Name()), roots[b][0], "all prefixes declared at or below the root", fmt.Sprintf("prefix(es) %v are used in the tree but declared nowhere in it; the tree is built standalone at %v (serialised alone it is not namespace-well-formed, e.g. the encrypted assertion)", missing, roots[b]))
+	}
+}
+
+// checkNoAlgorithmFilter: C07.sig-methods. "Every supported signature method": which algorithms verify is goxmldsig's
+// business (the IdP's SetSignatureMethod accepts exactly what that library implements). The SP's signature validator and
+// the helpers it is split into do not look at the SignatureMethod/DigestMethod of the message themselves: an allow-list
+// written in the module can only be narrower than what the IdP may be configured with, and refuses its own IdP.
+func checkNoAlgorithmFilter(r *Report, p *Prog, rule string) {
+	sr := findSigRoles(p)
+	n := 0
+	for _, v := range sr.Validators {
+		n++
+		r.Fn(p.FnName(v))
+		why := ""
+		for _, f := range helperRegion(p, v, 2) {
+			for _, b := range f.Blocks {
+				for _, in := range b.Instrs {
+					for _, op := range in.Operands(nil) {
+						if op == nil || *op == nil {
+							continue
+						}
+						if s, ok := constStr(*op); ok && (s == "Algorithm" || strings.Contains(s, "SignatureMethod") || strings.Contains(s, "DigestMethod")) {
+							why = firstNonEmpty(why, fmt.Sprintf("%q is read at %s", s, p.InstrPos(in)))
+						}
+					}
+				}
+			}
+		}
+		r.Check(why == "", rule, fmt.Sprintf("%s: the signature algorithm is judged by goxmldsig only", p.FnName(v)), p.Pos(v.Pos()), "the validator does not inspect SignatureMethod/DigestMethod", "the SP's validator inspects the message's algorithm itself ("+why+"): a list kept in the module refuses methods its own IdP can be configured to sign with")
+	}
+	if n == 0 {
+		panic(unresolved{"role SP signature validator"})
 	}
 }
